@@ -366,7 +366,10 @@ def model_obs(case: dict, resp: list) -> list:
         prev_tmp = tmp
         prev_fin = dict((k, st) for k, st in fin)
         o = {"fs": {"final": fin, "strays": strays}}
+        if r.get("history_ok") is False:
+            o["fs"]["history"] = "crashHistory disagrees with the step-by-step directory"  # shows up as drift
         if step[0] == "run":
+            o["sched"], o["uncached"] = r.get("sched"), r.get("uncached")
             o["out"] = r["out"]
             o["calls"] = sorted(r["calls"])
         out.append(o)
@@ -599,6 +602,12 @@ def judge_case(ctx, case, R, M):
                   what=f"complete run (step {i}, workers={step[1]}) after {[s[0] for s in case['script'][:i]]}")
         if m is not None and Rv["out"] != "error" and r["fs"] != m["fs"]:
             ctx.add_drift(sub, r["fs"], m["fs"], f"files after complete run (step {i})")
+        if m is not None and m.get("sched") is not None and isinstance(Rv["out"], list) and m["out"] != "refused":
+            # the model's pool order (keys processed in reverse, reported in input order) and its uncached run, against
+            # what the real run (sequential or pool) returned
+            if m["sched"] != Rv["out"] or m["uncached"] != Rv["out"]:
+                ctx.add_drift(sub, Rv["out"], {"sched": m["sched"], "uncached": m["uncached"]},
+                              f"model's reverse-order schedule / uncached run vs the real results (step {i})")
 
 
 def evaluate(ctx, cases):
